@@ -72,6 +72,8 @@ def _tokens(s):
 def eval_expr(expr, present, name2id):
     toks = _tokens(expr)
     pos = [0]
+    if not toks:
+        return True       # no condition at all (a filter with zero entries): the empty conjunction
 
     def atom():
         t = toks[pos[0]]
